@@ -105,3 +105,17 @@ Example C18_dot_strand_report_all :
   let p := {| p_count := 5; p_polyt := false; p_polya := false; p_introns := [(3,6);(9,12)]; p_matching := false; p_in_known := false |} in
   match snd (fl_step w pr g [] [99] (0, []) p) with Novel Dot _ _ _ => True | _ => False end.
 Proof. exact dot_strand_report_all. Qed.
+
+(* ---- tie to the source.  gen/Extra.v is regenerated from src/common.py on every check (tools/translate_extra.py); the model's
+        site sets are CANONICAL_FWD_SITES / CANONICAL_REV_SITES of the source, pair by pair in the order of the set literals (the two
+        eq_refl are checked by conversion: an edit of the source's sets is reported against this theorem), so the lookup table of
+        `sites`, the mirror-image relation and the disjointness of the two sets hold of the source's sets *)
+From IQ.gen Require Extra.
+From IQ Require Import CanonBridge.
+Theorem C18_site_sets_are_the_sources :
+  Canon.fwd_sites = Extra.CANONICAL_FWD_SITES /\ Canon.rev_sites = Extra.CANONICAL_REV_SITES /\
+  (forall st, sites st = match st with Plus => Extra.CANONICAL_FWD_SITES | _ => Extra.CANONICAL_REV_SITES end) /\
+  Extra.CANONICAL_REV_SITES = map mirror Extra.CANONICAL_FWD_SITES /\
+  (forall p, In p Extra.CANONICAL_FWD_SITES -> In p Extra.CANONICAL_REV_SITES -> False).
+Proof. exact (site_sets_bridge Extra.CANONICAL_FWD_SITES Extra.CANONICAL_REV_SITES eq_refl eq_refl). Qed.
+Print Assumptions C18_site_sets_are_the_sources.
